@@ -8,7 +8,7 @@ import re
 VERIF = os.path.dirname(os.path.dirname(os.path.abspath(__file__)))
 src = open(os.path.join(VERIF, "coq/theories/Raft/Props.v")).read()
 imports = re.search(r"(From Coq Require Import.*?Open Scope Z_scope\.)", src, re.S).group(1)
-imports = imports.replace("Raft.ProofsAgree.", "Raft.ProofsAgree Raft.Props.") if "Raft.Props" not in imports else imports
+imports = imports.replace("Open Scope Z_scope.", "From VP Require Import Raft.Props.\nOpen Scope Z_scope.")
 items = re.findall(r"(?:Theorem|Example)\s+(\w+)\s*:\s*(.*?)\.\s*\nProof", src, re.S)
 out = {}
 for name, stmt in items:
